@@ -75,8 +75,73 @@ def entry_state(p):
     return out
 
 
+def order_inconsistent(conds):
+    """conds: iterable of (canonical text, polarity).  True when the order / equality comparisons among them cannot all hold
+    (a == b with a < b;  a < b with b < a;  a < b, b <= c, c <= a; ...) - a small difference-free order closure over the terms
+    that occur, numeric literals ordered by value."""
+    lt, le, eq, ne = set(), set(), set(), set()
+    terms = set()
+    for src, pol in conds:
+        try:
+            e = ast.parse(src, mode="eval").body
+        except SyntaxError:
+            continue
+        if not (isinstance(e, ast.Compare) and len(e.ops) == 1 and isinstance(e.ops[0], (ast.Lt, ast.Eq))):
+            continue
+        a, b = norm_src(e.left), norm_src(e.comparators[0])
+        terms |= {a, b}
+        if isinstance(e.ops[0], ast.Lt):
+            (lt if pol else le).add((a, b) if pol else (b, a))
+        else:
+            (eq if pol else ne).add((a, b))
+    if not terms:
+        return False
+    nums = {}
+    for t in terms:
+        try:
+            nums[t] = float(ast.literal_eval(t))
+        except Exception:
+            pass
+    for a in nums:
+        for b in nums:
+            if nums[a] < nums[b]:
+                lt.add((a, b))
+            elif a != b and nums[a] == nums[b]:
+                eq.add((a, b))
+    T = sorted(terms)
+    # rel[a][b]: 0 none, 1 a <= b, 2 a < b
+    rel = {a: {b: 0 for b in T} for a in T}
+    for a in T:
+        rel[a][a] = 1
+    for a, b in le:
+        rel[a][b] = max(rel[a][b], 1)
+    for a, b in lt:
+        rel[a][b] = 2
+    for a, b in eq:
+        rel[a][b] = max(rel[a][b], 1)
+        rel[b][a] = max(rel[b][a], 1)
+    for k in T:
+        for i in T:
+            if not rel[i][k]:
+                continue
+            for j in T:
+                if rel[k][j]:
+                    v = 2 if 2 in (rel[i][k], rel[k][j]) else 1
+                    if v > rel[i][j]:
+                        rel[i][j] = v
+    if any(rel[a][a] == 2 for a in T):
+        return True
+    for a, b in ne:
+        if rel[a][b] and rel[b][a]:
+            return True
+    return False
+
+
 def contradict(dp, dq):
-    return [c for c in dp if c in dq and dp[c] != dq[c]]
+    out = [c for c in dp if c in dq and dp[c] != dq[c]]
+    if not out and order_inconsistent(list(dp.items()) + list(dq.items())):
+        out = ["<order>"]
+    return out
 
 
 def check_route(ctx, cls, rule):
